@@ -198,7 +198,14 @@ impl World {
                 }
             } else if k.len() >= 5 && &k[0..5] == b"\x00\x03bid" {
                 let key = String::from_utf8_lossy(&k[5..]).to_string();
-                if let Ok(b) = serde_json::from_slice::<BidOrderV3>(&v) {
+                // the storage format is told by the record's own shape (an old-format record carries an
+                // event log), not by which of the crate's types happens to accept it
+                let has_events = serde_json::from_slice::<serde_json::Value>(&v)
+                    .ok()
+                    .and_then(|j| j.as_object().map(|o| o.contains_key("events")))
+                    .unwrap_or(false);
+                let as_v3 = if has_events { None } else { serde_json::from_slice::<BidOrderV3>(&v).ok() };
+                if let Some(b) = as_v3 {
                     s.bids.insert(unrender_id(&key), bid_from_chain(&b));
                 } else {
                     #[allow(deprecated)]
